@@ -163,7 +163,7 @@ def row_witnesses(ctx, process_row):
         res.append(py)
     ctx.notes["row_order_dependence_outside_guards"] = (
         "c / c::fr / c::default::x in two orders: implementation and model agree, results %s"
-        % ("differ (as the counter-witness theorem says)" if res[0] != res[1] else "are now equal (theorem plain_beside_deep_order_dependent will fail to build)")
+        % ("differ (as the counter-witness theorem says)" if res[0] != res[1] else "are equal on the implementation (the model, for which plain_beside_deep_order_dependent is proved, then no longer corresponds: reported as a mismatch)")
     )
     hk = {"caption": ("label",), "label": ("label",)}
     a = process_row("survey", {"caption": "A", "label": "B"}, hk, "default")
